@@ -91,6 +91,22 @@ Definition select (l : list Z) (m : list bool) : list Z := map fst (filter snd (
 (* sum(mask) *)
 Definition count_true (m : list bool) : Z := Z.of_nat (length (filter (fun b => b) m)).
 
+(* how the type tests of _check_values / __init__ see their argument:
+   type(values) in VALID_INDEX_TYPES, isinstance(values, (int, np.integer)),
+   isinstance(values, (list, np.ndarray)), isinstance(is_relative, bool) *)
+Definition as_index (i : input) : option (list Z) :=
+  match i with IIndex l => Some l | IRange a b s => Some (pyrange a b s) | _ => None end.
+Definition as_int (i : input) : option Z :=
+  match i with IInt z => Some z | IBool b => Some (if b then 1 else 0) | _ => None end.
+Inductive seq := SElems (l : list num) | SBadDim.
+Definition as_seq (i : input) : option seq :=
+  match i with IList l | IArr l => Some (SElems l) | IArrNd => Some SBadDim | _ => None end.
+Definition as_bool (r : relflag) : option bool :=
+  match r with RBool b => Some b | RBad => None end.
+(* pd.Int64Index(list-or-array, dtype=int) *)
+Definition pd_int64index (s : seq) : res (list Z) :=
+  match s with SElems l => coerce_all l | SBadDim => Err end.
+
 (* ---- construction: _check_values + __init__ ------------------------------------------------ *)
 
 (* tail of _check_values on an index: duplicates rejected, then sorted *)
